@@ -332,8 +332,23 @@ func (g *gen) methods(f string, t *TypeDecl) {
 	for i := 0; i < n; i++ {
 		m := Method{Name: fmt.Sprintf("Do%d", i), Ptr: g.r.Intn(2) == 0}
 		r := recv
-		if !t.Generic && g.r.Intn(4) == 0 {
-			// receiver spelled through an alias
+		if !t.Generic && g.r.Intn(3) == 0 {
+			// receiver spelled through an alias: PA = *T; (x PA) | A = T; (x *A) | A2 = A = T; (x *A2) / (x A2) | A = T; (x A)
+			if m.Ptr && g.r.Intn(2) == 0 {
+				al := fmt.Sprintf("A%s%d", t.Name, i)
+				g.w(f, "type %s = %s\n", al, t.Name)
+				g.p.Types = append(g.p.Types, &TypeDecl{Name: al, Kind: "alias", IsAlias: true, DeclTags: map[string][]string{}, File: f})
+				if g.r.Intn(2) == 0 {
+					al2 := al + "x"
+					g.w(f, "type %s = %s\n", al2, al)
+					g.p.Types = append(g.p.Types, &TypeDecl{Name: al2, Kind: "alias", IsAlias: true, DeclTags: map[string][]string{}, File: f})
+					al = al2
+				}
+				g.w(f, "func (x *%s) %s() {}\n", al, m.Name)
+				m.ViaName = "*" + al
+				t.Methods = append(t.Methods, m)
+				continue
+			}
 			if m.Ptr {
 				al := fmt.Sprintf("PA%s%d", t.Name, i)
 				g.w(f, "type %s = *%s\n", al, t.Name)
